@@ -63,7 +63,26 @@ def _validate(ck, prog):
     for s in body[:body.index(loop)]:
         if isinstance(s, ast.Assign) and isinstance(s.targets[0], ast.Name):
             env[s.targets[0].id] = ev.eval(s.value, env, fr)
-    res = ev.exec_for(loop, Path([], "live", None, env), fr)
+    from lcsa.sym import FlagDependent
+    try:
+        res = ev.exec_for(loop, Path([], "live", None, env), fr)
+    except FlagDependent as fd:
+        # the treatment of a character depends on a flag set by an earlier character: both treatments are reachable, and at most one of
+        # them is the required one
+        c = fd.letter
+
+        def cls(sg):
+            if sg[0] == "raise":
+                return ("raise", None)
+            texts = [t for _, t in sg[3]] + [t for _, t in sg[2]]
+            txt = next((t for t in texts if t not in (None, "[]")), "")
+            return ("drop", "") if txt in ("", "[]") else ("keep", txt)
+        want = ("keep", c) if c in LETTERS else (("drop", "") if c.isspace() else ("raise", None))
+        got = {"at first": cls(fd.first), "once %s" % fd.valuation: cls(fd.later)}
+        ck.shape(any(v[0] != want[0] for v in got.values()), "validateSequence: treatment of %r varies with %s in a way lcsa cannot classify" % (c, fd.valuation), f.loc(loop))
+        ck.ob("PART-filter", construct, False, expected=want, found=got, slot="char U+%04X" % ord(c), where=f.loc(loop),
+              note="amino-acid letter kept; whitespace dropped; anything else rejected with an exception - wherever in the word it stands")
+        return
     live = [p for p in res if p.kind == "live"]
     if len(live) != 1:
         raise Undecided("validateSequence loop: %d completing paths" % len(live), f.loc(loop))
